@@ -269,7 +269,7 @@ def check(prop, tier, only_key=None):
             'evaluations': obligations, 'distinct_nontrivial': sum(r['decls'] for r in results),
             'undecided_samples': undecided[:10],
         },
-        'assumptions': [],
+        'assumptions': [x.strip() for x in meta.META.get(prop, {}).get('note', '').split(';') if x.strip()],
         'wall_s': round(time.time() - t0, 2),
         'violations': len(new),
     }
